@@ -4256,9 +4256,17 @@ impl<'s> Semantics<'s> {
                 Expression::cmpltu(result.clone().into(), lhs)?,
             );
 
-            // store result: dest gets sum, src gets original dest
-            self.operand_store(block, &detail.operands[0], result.into())?;
-            self.operand_store(block, &detail.operands[1], original_dest.into())?;
+            // store result: dest gets sum, src gets original dest. A register
+            // destination is written last (xadd eax, eax leaves the sum); a
+            // memory destination is written first, because its address may
+            // depend on the source register.
+            if detail.operands[0].type_ == x86_op_type::X86_OP_MEM {
+                self.operand_store(block, &detail.operands[0], result.into())?;
+                self.operand_store(block, &detail.operands[1], original_dest.into())?;
+            } else {
+                self.operand_store(block, &detail.operands[1], original_dest.into())?;
+                self.operand_store(block, &detail.operands[0], result.into())?;
+            }
 
             block.index()
         };
